@@ -79,6 +79,13 @@ def matrix_programs():
     for (dk, d), (rk, r), op in itertools.product(decls.items(), rhs.items(), ("=", "+=")):
         src = f'{d}\nparser {{ "x"; v {op} {r}; "y"; }}\n'
         out.append({"name": f"matrix/{dk}.{op}.{rk}", "src": src, "args": ["-feof-support"]})
+    # delete on every output kind (directly and through a macro out parameter); constant expressions that cannot be evaluated
+    for dk, d in decls.items():
+        out.append({"name": f"matrix/{dk}.delete", "src": f'{d}\nparser {{ "x"; delete v; "y"; }}\n', "args": []})
+        out.append({"name": f"matrix/{dk}.delete-macro", "src": f'{d}\nmacro wipe(out o) {{ delete o; }}\nparser {{ "x"; wipe(v); "y"; }}\n', "args": []})
+        for ek, e in {"div0": "[1 / 0]", "mod0": "[1 % 0]", "shlneg": "[1 << -1]", "shrneg": "[8 >> -1]", "bigshift": "[1 << 4000]", "cmpdiv0": "[(1 / 0) == 1]"}.items():
+            out.append({"name": f"matrix/{dk}.const.{ek}", "src": f'{d}\nparser {{ v = {e}; "x"; }}\n', "args": []})
+    out.append({"name": "matrix/macro-expr-shadows-output", "src": 'out int a;\nout int v;\nmacro m(expr a) { v = [a + 1]; "x"; }\nparser { m([a + 2]); }\n', "args": []})
     odd = ["out int{unsigned, size 3} v;", "out int{signed, size 0} v;", "out int{size 16} v;", "out int{unsigned, unsigned} v;", "out int{size 1, size 2} v;", "out str[0] v;", "out str[1] v;", "out str[-1] v;", "out str[0x10] v;",
            "out unterminated str[0] v;", "out raw{notatype} v;", "out enum{A,A} v;", "out enum{finish,B} v;", 'out str[4] v = 5;', 'out int v = "x";', "out bool v = 7;", "out int v = A;", "out enum{A,B} v = B;",
            "out enum{A,B} v = C;", 'out raw{uint8_t} v = "a";', 'out str[4] v = "abcdef";', 'out str[4] v = "ab"i;', "out int v = [1 + 2];", "out int v = [$last];", "out int v = [w];", 'out str[4] v = "\\q";',
